@@ -4,7 +4,8 @@ Theorems (lean/CffiVerif/Props/C22.lean) over the model of restore_errno/save_er
 b_get_errno/b_set_errno and the wrappers around calls and callbacks:
 set_then_call_sees, call_then_get_returns, callback_assignment_visible,
 callback_sees_c_errno, steps_commute, noninterference, one_variable,
-errno_is_one_thread_local_variable.
+errno_is_one_thread_local_variable, steps_are_source (the model's steps are the micro-steps
+re-extracted from the C / generator source on every run).
 
 Tie to the code: 2-4 Python threads run random programs of ffi.errno reads/writes,
 C calls (API-mode builtin, libffi through ffi.addressof, in-line ABI dlopen,
@@ -23,6 +24,9 @@ import threading
 
 import common
 from common import InfraError
+
+sys.path.insert(0, os.path.join(common.VERIF, "translate"))
+import c22_steps  # noqa: E402   (what the code does to errno / cffi_saved_errno, as micro-step lists)
 
 MANIFEST = {
     "text": "Kernel-checked theorems over a model of cffi's errno handling (per thread the C errno and cffi's saved "
@@ -428,6 +432,12 @@ def run_cases(ctx, n, model=True):
             if o != e:
                 ctx.disagree(case, e, o, "trace event %r" % line)
                 break
+
+
+def translators(ctx):
+    """Generated/ErrnoSteps.lean: save/restore bodies, b_get_errno/b_set_errno, the wrappers around C calls and
+    callbacks; `steps_are_source` proves the model's step function equal to running them."""
+    return [c22_steps.translator(ctx)]
 
 
 def correspond(ctx):
